@@ -145,15 +145,28 @@ func selfTestResults(prop string, fn checkFn, repo, verif string) []map[string]s
 		}
 		out = append(out, rec)
 	}
+	for _, pm := range benignPatchesFor(prop, repo, verif) {
+		rec := map[string]string{"mutation": pm.Name, "kind": "benign", "file": "benign/" + strings.TrimPrefix(pm.Name, "refactoring:") + "/patch.diff", "expected_rule_construct": ""}
+		if pm.Overlay == nil {
+			rec["result"] = "skipped (" + pm.Skip + ")"
+			out = append(out, rec)
+			continue
+		}
+		res := runCheck(prop, "quick", repo, verif, pm.Overlay, fn, true)
+		rec["result"] = "silent"
+		if nf := res.run.newFailures(); len(nf) > 0 {
+			rec["result"] = "false alarm"
+			rec["reported"] = nf[0].Key()
+		} else if len(res.run.Undecided) > 0 {
+			rec["result"] = "undecided: " + strings.Join(res.run.Undecided, "; ")
+		}
+		out = append(out, rec)
+	}
 	return out
 }
 
 func runSelfTest(prop string, fn checkFn, repo, verif string) int {
 	muts := mutations[prop]
-	if len(muts) == 0 {
-		fmt.Printf("selftest %s: no mutations registered\n", prop)
-		return 0
-	}
 	failed := 0
 	for _, m := range muts {
 		ov, why := overlayFor(repo, m)
@@ -194,6 +207,25 @@ func runSelfTest(prop string, fn checkFn, repo, verif string) int {
 		default:
 			fmt.Printf("selftest %s/%s: MISSED (expected %s, got %v)\n", prop, m.Name, m.Expect, keys)
 			failed++
+		}
+	}
+	for _, pm := range benignPatchesFor(prop, repo, verif) {
+		if pm.Overlay == nil {
+			fmt.Printf("selftest %s/%s: SKIP (%s)\n", prop, pm.Name, pm.Skip)
+			failed++
+			continue
+		}
+		res := runCheck(prop, "quick", repo, verif, pm.Overlay, fn, true)
+		nf := res.run.newFailures()
+		switch {
+		case len(nf) > 0:
+			fmt.Printf("selftest %s/%s: FALSE ALARM on a behaviour-preserving refactoring: %s\n", prop, pm.Name, nf[0].Key())
+			failed++
+		case len(res.run.Undecided) > 0:
+			fmt.Printf("selftest %s/%s: UNDECIDED on a behaviour-preserving refactoring %v\n", prop, pm.Name, res.run.Undecided)
+			failed++
+		default:
+			fmt.Printf("selftest %s/%s: SILENT (benign refactoring, as required)\n", prop, pm.Name)
 		}
 	}
 	if failed > 0 {
